@@ -139,8 +139,8 @@ def model_stages(run, thorough):
     # M: design level (the repaired design: WaitBodyOnCancel = TRUE)
     run.tlc_mc("TaskMgr", "TaskMgr_mc.cfg", None if thorough else {"MaxDo": "2"}, workers=4, timeout=3000)
     if thorough:
-        run.tlc_mc("TaskMgr", "TaskMgr_mc.cfg", {"Invs": "{1, 2, 3}", "Concurrency": "2", "MaxDo": "2"}, workers=4, timeout=3000,
-                   name="TaskMgr_mc.cfg 3inv conc2")
+        run.tlc_mc("TaskMgr", "TaskMgr_mc.cfg", {"Concurrency": "2"}, workers=4, timeout=3000,
+                   name="TaskMgr_mc.cfg conc2")
     run.tlc_mc("TaskMgr", "TaskMgr_live.cfg", None if thorough else {"MaxDo": "1"}, workers=4, timeout=3000)
     small = {"MaxDo": "2"}
     run.tlc_negctl("TaskMgr", "TaskMgr_mc.cfg", dict(small, WaitBodyOnCancel="FALSE"), ["Bounded", "NoSelfOverlap", "NoneRunningAtReturn"], drop=INTERNAL)
@@ -195,11 +195,13 @@ def binding_stages(run, thorough):
         log("[gated] %-18s %d walks: %d completed, diverged %s, skipped %d, %d steps executed" % (
             s["name"], s["walks"], s["completed"], s["diverged"], s["skipped"], s["steps"]))
         run.cov["stages"].append(dict(stage="gated-replay", **s))
-        other = {k: v for k, v in s["diverged"].items() if k not in ("release-blocked", "select-other-arm")}
+        other = {k: v for k, v in s["diverged"].items() if k not in ("release-blocked", "select-other-arm", "select-retry", "wakeup", "cxtimeout")}
+        if s["diverged"].get("select-other-arm") and "nowait" not in s["name"]:
+            exhaustive = False      # some edges behind a two-armed select were not reached even after retries
         if other:
             # a step the specification enables did not happen in the implementation within the wait (or the scheduler is wrong)
             run.inconclusive.append("gated replay %s: walks abandoned for %s" % (s["name"], other))
-        if s["skipped"] or s["diverged"].get("release-blocked"):
+        if s["diverged"].get("release-blocked"):
             if "nowait" not in s["name"]:
                 run.inconclusive.append("gated replay %s: implementation blocked before a semaphore release the design enables" % s["name"])
             exhaustive = exhaustive and "nowait" in s["name"]
